@@ -135,6 +135,35 @@ Definition cli_multi (v : jvalue) : option (list (str * str)) :=
   | _ => None
   end.
 
+(* ---- do_manifest_python / do_std_manifest_python_vars ---- *)
+Fixpoint manifest_python (v : jvalue) : str :=
+  match v with
+  | JNull => [78; 111; 110; 101]                      (* None *)
+  | JBool true => [84; 114; 117; 101]                 (* True *)
+  | JBool false => [70; 97; 108; 115; 101]            (* False *)
+  | JNum x => show x
+  | JStr s => escape_string_python s
+  | JArr items =>
+      match items with
+      | [] => [91; 93]
+      | _ :: _ => [91] ++ join [44; 32] (map manifest_python items) ++ [93]
+      end
+  | JObj members =>
+      match members with
+      | [] => [123; 125]
+      | _ :: _ =>
+          [123] ++ join [44; 32] (map (fun kv => escape_string_python (fst kv) ++ [58; 32]
+                                                 ++ manifest_python (snd kv)) members) ++ [125]
+      end
+  end.
+
+(* name = value newline, per visible field; None = argument is not an object *)
+Definition manifest_python_vars (v : jvalue) : option str :=
+  match v with
+  | JObj members => Some (flat_map (fun kv => fst kv ++ [32; 61; 32] ++ manifest_python (snd kv) ++ [10]) members)
+  | _ => None
+  end.
+
 End Manifest.
 
 (* ---- whitespace erasure: drops JSON whitespace outside string literals ---- *)
